@@ -15,10 +15,13 @@
      genCSetIdLen/SMax     -> set_idlen / set_smax
 
    Characters are their codes (N); a C string is the list of its characters up to, not including,
-   the terminating 0.  The C indexes gcvIdChars[(int)*s] with a (signed) char: the arrays have
-   CHAR_MAX = 127 entries, so the C is only defined for characters 1..126 (`cchar`); every theorem
-   carries exactly that guard.  The escape table, VAR_HASH and the strHash constants are Section
-   variables here; Props instantiates them with the table generated from the current genc.c. *)
+   the terminating 0.  The C indexes gcvIdChars[(UByte)*s], arrays of UCHAR_MAX+1 entries filled for
+   every i < UCHAR_MAX+1 (isalnum is false above 127 in the C locale): defined for the characters
+   1..255 (`cchar`); a byte >= 127 has no escape and is DROPPED, so it is not `printable` and the
+   injectivity theorems do not speak about names that differ only in dropped characters.  The rows of
+   the table itself must have characters 1..126 (checked in tbl_wf; ccIdChar is a plain char).
+   The escape table, VAR_HASH and the strHash constants are Section variables here; Props instantiates
+   them with the table generated from the current genc.c. *)
 Require Import NArith ZArith List Bool String Ascii.
 Import ListNotations.
 Local Open Scope N_scope.
@@ -34,9 +37,11 @@ Definition is_alpha (c : N) : bool := is_upper c || is_lower c.
 Definition is_alnum (c : N) : bool := is_alpha c || is_digit c.
 Definition is_idchar (c : N) : bool := is_alnum c || (c =? 95).
 
-(* characters for which the C table lookup is defined: gcvIdChars[CHAR_MAX], *s <> 0 *)
-Definition cchar (c : N) : Prop := 0 < c /\ c < 127.
-Definition ccharb (c : N) : bool := (0 <? c) && (c <? 127).
+(* characters of a C string: *s <> 0, one byte; gcvIdChars[UCHAR_MAX+1] is defined for all of them *)
+Definition cchar (c : N) : Prop := 0 < c /\ c < 256.
+Definition ccharb (c : N) : bool := (0 <? c) && (c <? 256).
+(* characters a table row may have (plain char, positive) *)
+Definition rowcharb (c : N) : bool := (0 <? c) && (c <? 127).
 
 (* readable literals in Examples / keyword list *)
 Definition s2l (s : string) : str := map N_of_ascii (list_ascii_of_string s).
@@ -161,19 +166,19 @@ Definition mult_var_id (idlen : N) (idhash : bool) (strA : str) (id : N) (strB :
 
 (* ---- computable side conditions on the table (closed by vm_compute on the generated table) *)
 
-Definition chars126 : list N := map N.of_nat (seq 1 126).
+Definition chars_all : list N := map N.of_nat (seq 1 255).
 
 (* no printable character's escape is a prefix of another's *)
 Definition prefix_code_ok : bool :=
   forallb (fun c1 => forallb (fun c2 =>
      implb (printableb c1 && printableb c2 && is_prefix (codeword c1) (codeword c2)) (c1 =? c2))
-     chars126) chars126.
+     chars_all) chars_all.
 
 (* every escape consists of identifier characters, none contains a digit, none starts with a digit,
    no row overrides an alphanumeric character, every row character is in 1..126 *)
 Definition tbl_wf : bool :=
   forallb (fun r => let '(ch, w) := r in
-     ccharb ch && negb (is_alnum ch) && forallb is_idchar w && forallb (fun x => negb (is_digit x)) w) tbl.
+     rowcharb ch && negb (is_alnum ch) && forallb is_idchar w && forallb (fun x => negb (is_digit x)) w) tbl.
 
 (* a tag (first argument of gc0MultVarId other than G / pG) after which the index is unambiguous *)
 Definition tag_okb (idlen : N) (t : str) : bool :=
